@@ -945,6 +945,13 @@ def totality_cases(tier):
         ("for-without-braces-nested", T("var v = 0; for (var i = 0; i < 2; i++) for (var j = 0; j < 2; j++) if (i == j) v += 1; else v -= 1;\ny <== x + v;"), []),
         ("signal-array-in-loop-bounds", T("signal s[3]; var n = 3; for (var i = 0; i < n; i++) { s[i] <== x * i; } y <== s[n - 1];"), []),
     ]
+    # assignments whose left-hand side is not a variable (the grammar accepts any expression there), in templates and functions
+    LHS = {"sum": "a + 1", "call": "g(2)", "number": "3", "minus": "-a", "array": "[a, a]", "ternary": "a == 0 ? a : a", "parens": "(a)", "index-sum": "b[0] + 1", "parens-index": "(b)[0]"}
+    for (ln, lhs) in LHS.items():
+        for (on, op) in (("var", "="), ("constraint", "<=="), ("signal", "<--"), ("compound", "+="), ("right-signal", "-->"), ("right-constraint", "==>")):
+            stmt = f"3 {op} {lhs};" if on.startswith("right") else f"{lhs} {op} 3;"
+            cases.append((f"lhs:{ln}/{on}/template", P + "function g(a) { return a; }\ntemplate Main() { signal input x; signal output y; var a = 1; var b[2]; " + stmt + " y <== x; }\ncomponent main = Main();\n", []))
+            cases.append((f"lhs:{ln}/{on}/function", P + "function g(a) { return a; }\nfunction f(a) { var b[2]; " + stmt + " return a; }\ntemplate Main() { signal input x; signal output y; y <== x * f(2); }\ncomponent main = Main();\n", []))
     # lexer-level and byte-level inputs (bytes objects are written verbatim)
     cases += [
         ("hex-without-digits", T("var v = 0x;\ny <== x + v;"), []),
@@ -1006,7 +1013,7 @@ def suite_totality(exe, tier, seed):
         shutil.rmtree(d, ignore_errors=True)
     return {"unit": "e2e-totality", "evaluations": evals, "distinct_nontrivial": nontrivial, "exhaustive": False,
             "rule": "the real CLI on grammar-valid but unusual programs: it terminates within 60 s with exit status 0 or 1, prints its summary line, and neither panics nor overflows its stack",
-            "bound": "templates with Circomlib's names and every arity 0..3 under the curves; 27 structural oddities, 57 grammar-valid programs with semantic errors (undeclared / duplicate names, wrong arities, anonymous components and tuples in every unusual place, misplaced constructs) 15 size / nesting stress shapes (5000-element array literals, 500 nested blocks, 300-factor products, 1000 signals, 100 components, mutual recursion), 26 shapes aimed at the individual passes and options (divisions and comparisons of signals, LessThan / Num2Bits wiring, component matrices, functions without return, all compound operators, 200 findings, --allow / --level / -L oddities) and 21 lexer- and byte-level inputs (long and non-ASCII string literals in log, hex prefix without digits, empty file, invalid UTF-8, NUL bytes, BOM, unbalanced brackets, 200 000-character lines, non-ASCII text at error positions; empty bodies, deep nesting of ifs / loops / parentheses / ternaries, 2000-term sums, 200-fold unary chains, 400-digit literals in shifts and powers, division by constant zero, zero-sized arrays, 300 templates, 3000-character identifiers, custom templates)",
+            "bound": "templates with Circomlib's names and every arity 0..3 under the curves; 27 structural oddities, 57 grammar-valid programs with semantic errors (undeclared / duplicate names, wrong arities, anonymous components and tuples in every unusual place, misplaced constructs) 108 assignments whose left-hand side is not a variable (9 expressions x 6 operators, in a template and in a function), 15 size / nesting stress shapes (5000-element array literals, 500 nested blocks, 300-factor products, 1000 signals, 100 components, mutual recursion), 26 shapes aimed at the individual passes and options (divisions and comparisons of signals, LessThan / Num2Bits wiring, component matrices, functions without return, all compound operators, 200 findings, --allow / --level / -L oddities) and 21 lexer- and byte-level inputs (long and non-ASCII string literals in log, hex prefix without digits, empty file, invalid UTF-8, NUL bytes, BOM, unbalanced brackets, 200 000-character lines, non-ASCII text at error positions; empty bodies, deep nesting of ifs / loops / parentheses / ternaries, 2000-term sums, 200-fold unary chains, 400-digit literals in shifts and powers, division by constant zero, zero-sized arrays, 300 templates, 3000-character identifiers, custom templates)",
             "samples": samples, "violations": viol}
 
 
@@ -1645,6 +1652,33 @@ DET_DEFS["Fib"] = """template Fib(n) {
   }
   out <== a;
 }"""
+# several things of one kind inside one definition (four unused outputs of one component, a signal in three constraints, three
+# unused parameters, two components of one template): whatever a finding lists or counts must not depend on hash order
+DET_DEFS["Split"] = """template Split() {
+  signal input in;
+  signal output lo;
+  signal output hi;
+  signal output carry;
+  signal output sign;
+  lo <== in;
+  hi <== in * 2;
+  carry <== in * 3;
+  sign <== in * 4;
+}"""
+DET_DEFS["Wide"] = """template Wide(p, q, r) {
+  signal input in;
+  signal output out;
+  signal w;
+  component s1 = Split();
+  component s2 = Split();
+  s1.in <== in;
+  s2.in <== in + 1;
+  w <-- in * in * in;
+  w * in === out;
+  w * w === in;
+  (w + 1) * in === 2;
+  out <== in;
+}"""
 DET_EXTRA = {
     "Unrelated": """template Unrelated(p) {
   signal input u;
@@ -1721,7 +1755,7 @@ def suite_determinism(exe, tier, seed):
     def diff(a, b):
         return {"only_first": sorted(map(str, (a - b).elements()))[:4], "only_second": sorted(map(str, (b - a).elements()))[:4]}
     try:
-        base_a, base_b = ["fdead", "fhelper", "Num2Bits", "Leaf", "Fib"], ["Mid", "Top"]
+        base_a, base_b = ["fdead", "fhelper", "Num2Bits", "Leaf", "Fib", "Split", "Wide"], ["Mid", "Top"]
         where = det_project(d, base_a, base_b)
         ref, e = det_findings(exe, d, ["a.circom", "b.circom"], where)
         evals += 1
@@ -1919,11 +1953,17 @@ def suite_failures(exe, tier, seed):
         m2 = write("main2.circom", "pragma circom 2.0.0;\ntemplate Other() { signal input i; signal output o; o <== i; }\ncomponent main = Other();\n")
         expect_failure("multiple-main", "two-files", [clean, m2], "two files with a main component each")
         expect_failure("multiple-main", "two-files-other-order", [m2, clean], "two files with a main component each")
+        # the second main component sits in a file that is only included
+        inc1 = write("incmain1.circom", 'pragma circom 2.0.0;\ninclude "main2.circom";\n' + FAIL_CLEAN[len("pragma circom 2.0.0;\n"):] + FAIL_MAIN)
+        expect_failure("multiple-main", "second-main-in-included-file", [inc1], "the named file has a main component and includes a file with another one")
+        write("main3.circom", "pragma circom 2.0.0;\ntemplate Third() { signal input i; signal output o; o <== i; }\ncomponent main = Third();\n")
+        inc2 = write("incmain2.circom", 'pragma circom 2.0.0;\ninclude "main2.circom";\ninclude "main3.circom";\n' + FAIL_CLEAN[len("pragma circom 2.0.0;\n"):])
+        expect_failure("multiple-main", "both-mains-in-included-files", [inc2], "the named file includes two files with a main component each")
     finally:
         shutil.rmtree(d, ignore_errors=True)
     return {"unit": "e2e-failures", "evaluations": evals, "distinct_nontrivial": nontrivial, "exhaustive": False,
             "rule": "the real CLI on a clean two-template project into which one failure is injected: a named file that does not exist (alone, first, last, between; also with another or no extension) or that cannot be analysed and is named with another extension, an unsupported `pragma circom` version (4 versions, first and second file), an illegal character or a stray brace before a token of the file (every token thorough, every fifth quick) and an unterminated comment, a malformed tuple or anonymous component (4 forms), a repeated parameter name (template first / last, function, a template that four others instantiate — repeated runs), two definitions with the same name, two main components (both file orders), a syntax error or parameter collision in a named file that another named file includes (both orders); each under --level warning and --level error: the exit status is non-zero, `No issues found.` is not printed, and an error-level report is displayed; the clean project itself exits 0",
-            "bound": "9 failure classes; syntax errors at " + ("every" if tier == "thorough" else "every fifth") + " token of a 17-line file; 2 levels each",
+            "bound": "9 failure classes (several main components also with the second one, or both, in files that are only included); syntax errors at " + ("every" if tier == "thorough" else "every fifth") + " token of a 17-line file; 2 levels each",
             "samples": samples, "violations": viol}
 
 
@@ -2134,6 +2174,11 @@ def suite_deadvalues(exe, tier, seed):
             "samples": samples, "violations": viol}
 
 
+def suite_degrees(exe, tier, seed):
+    import e2e_degrees
+    return e2e_degrees.suite(exe, tier, seed, run_cli)
+
+
 def main():
     suite, tier, seed = sys.argv[1], (sys.argv[2] if len(sys.argv) > 2 else "quick"), int(sys.argv[3]) if len(sys.argv) > 3 else 0
     try:
@@ -2141,7 +2186,7 @@ def main():
     except Exception as e:
         print(json.dumps({"error": str(e)}))
         return
-    r = {"tuples": suite_tuples, "output": suite_output, "values": suite_values, "curves": suite_curves, "includes": suite_includes, "totality": suite_totality, "positions": suite_positions, "sigassign": suite_sigassign, "scopes": suite_scopes, "determinism": suite_determinism, "failures": suite_failures, "deadvalues": suite_deadvalues}[suite](exe, tier, seed)
+    r = {"tuples": suite_tuples, "output": suite_output, "values": suite_values, "curves": suite_curves, "includes": suite_includes, "totality": suite_totality, "positions": suite_positions, "sigassign": suite_sigassign, "scopes": suite_scopes, "determinism": suite_determinism, "failures": suite_failures, "deadvalues": suite_deadvalues, "degrees": suite_degrees}[suite](exe, tier, seed)
     print(json.dumps(r))
 
 if __name__ == "__main__":
